@@ -996,6 +996,11 @@ func notSwallowed(c *Ctx, fn *ssa.Function, e ssa.Value) (bool, string) {
 				fail = ifi.Block().Succs[1]
 			}
 			if !hasErrResult {
+				// a deferred closure that records the failure in the enclosing
+				// function's named error result propagates it that way
+				if p := fn.Parent(); p != nil && closureIsDeferred(p, fn) && failureStoredIntoCapturedError(fn, fail) {
+					continue
+				}
 				// cannot propagate: the failure edge must not rejoin normal flow
 				// silently unless it terminates (panic/exit) — report
 				if !edgeTerminates(fail) {
@@ -1194,6 +1199,11 @@ func closerCompletedBeforeUse(c *Ctx, fn *ssa.Function, create *ssa.Call, method
 		}
 		rets++
 		if !dominated(ret) && !returnsAnyCloseResult(closes, ret) {
+			// the buffer belongs to the caller (it is not read here): a
+			// deferred Close completes the stream before the caller gets to it
+			if localBufferRoot(sinkArg, 0) == nil && deferredCloseOf(fn, aliases, method) {
+				continue
+			}
 			return false, fmt.Sprintf("return at %s can report success although no non-deferred %s() of this writer precedes it on every path: the in-memory archive would be handed on incomplete (a deferred %s runs after the result has been read)", c.instrPos(ret), method, method)
 		}
 	}
@@ -2311,4 +2321,64 @@ func notOverwritten(c *Ctx, fn *ssa.Function, call ssa.CallInstruction, e ssa.Va
 		}
 	}
 	return true, ""
+}
+
+// failureStoredIntoCapturedError: from the failing edge a store of a non-nil
+// error into a captured error variable is reached on every path (the store
+// may be guarded by "no earlier error": `cerr != nil && err == nil`).
+func failureStoredIntoCapturedError(fn *ssa.Function, fail *ssa.BasicBlock) bool {
+	found := false
+	seen := map[*ssa.BasicBlock]bool{}
+	var dfs func(b *ssa.BasicBlock)
+	dfs = func(b *ssa.BasicBlock) {
+		if seen[b] {
+			return
+		}
+		seen[b] = true
+		for _, in := range b.Instrs {
+			if st, ok := in.(*ssa.Store); ok {
+				if fv, isFV := st.Addr.(*ssa.FreeVar); isFV && types.Identical(derefType(fv.Type()), errorType) {
+					if k, isK := st.Val.(*ssa.Const); !isK || !k.IsNil() {
+						found = true
+					}
+				}
+			}
+		}
+		for _, s := range b.Succs {
+			dfs(s)
+		}
+	}
+	dfs(fail)
+	return found
+}
+
+// deferredCloseOf: fn defers method() on the closer, directly or inside a
+// deferred closure.
+func deferredCloseOf(fn *ssa.Function, aliases map[ssa.Value]bool, method string) bool {
+	// only the checked form: a deferred closure that calls method() on the
+	// closer and records its error in a captured error variable (a bare
+	// `defer w.Close()` drops the error - for an archive writer that is where
+	// "missed writing N bytes" is reported)
+	found := false
+	for _, an := range fn.AnonFuncs {
+		if !closureIsDeferred(fn, an) {
+			continue
+		}
+		forEachInstr(an, func(in ssa.Instruction) {
+			call, ok := in.(*ssa.Call)
+			if !ok {
+				return
+			}
+			if o := calleeObj(call); o != nil && o.Name() == method {
+				if recv := callReceiver(call); recv != nil && aliases[recv] {
+					if val, _ := errValueOf(call); val != nil {
+						if fail := nilTestFailEdge(val); fail != nil && failureStoredIntoCapturedError(an, fail) {
+							found = true
+						}
+					}
+				}
+			}
+		})
+	}
+	return found
 }
